@@ -7,6 +7,7 @@ mod c03;
 mod c04;
 mod c05;
 mod c08;
+mod c09;
 mod c10;
 mod c11;
 mod c12;
@@ -30,6 +31,7 @@ pub fn build(prop: &str, tier: &str) -> Vec<Scenario> {
         "C06" => chan::build_c06(quick),
         "C07" => chan::build_c07(quick),
         "C08" => c08::build(quick),
+        "C09" => c09::build(quick),
         "C10" => c10::build(quick),
         "C11" => c11::build(quick),
         "C12" => c12::build(quick),
